@@ -9,7 +9,7 @@ cleanup() { git -C /repo worktree remove --force "$WT" 2>/dev/null; rm -rf "$WT"
 trap cleanup EXIT
 git -C "$WT" apply "$PATCH" || { echo "PATCH-FAILED $PATCH"; exit 2; }
 mkdir -p /tmp/pdmut-replays
-OUT=$(VERIF_REPO="$WT" VERIF_BUDGET_S="$BUD" VERIF_EVIDENCE_DIR=/tmp/pdmut-evidence VERIF_REPLAY_DIR=/tmp/pdmut-replays /verif/check "$PROP" --tier "$TIER" 2>&1)
+OUT=$(VERIF_REPO="$WT" VERIF_SHRINK_S="${VERIF_SHRINK_S:-8}" VERIF_BUDGET_S="$BUD" VERIF_EVIDENCE_DIR=/tmp/pdmut-evidence VERIF_REPLAY_DIR=/tmp/pdmut-replays /verif/check "$PROP" --tier "$TIER" 2>&1)
 RC=$?
 echo "$OUT" | grep -E "^(VIOLATION|REPRODUCED|KNOWN-FINDING|pdsim:|  )" | head -8
 if [ $RC -eq 1 ]; then echo "CAUGHT $PROP $(basename $PATCH)"; elif [ $RC -eq 0 ]; then echo "MISSED $PROP $(basename $PATCH)"; else echo "ERROR($RC) $PROP $(basename $PATCH)"; echo "$OUT" | tail -20; fi
